@@ -1,8 +1,10 @@
 ---- MODULE BlsAgg ----
 (* BLS aggregation with symbolic discrete logs over Z_Q: H(m) are independent generators, so an element of the
    signature group is a vector of coefficients (one per message).  sigma_i = sk_i * H(m_i); Aggregate adds;
-   VerifyAggregate(pairs, agg) holds iff sum over pairs of sk(pk) * H(m) equals agg and every pk is valid
-   (non-identity, i.e. sk # 0).                                                                         *)
+   VerifyAggregate(pairs, agg) holds iff the messages are pairwise distinct (the BASIC scheme of
+   draft-irtf-cfrg-bls-signature-05, 3.1.1 - without that rule a rogue key x*G - pk_victim makes an aggregate over
+   {m, m} verify although the victim never signed m), the sum over pairs of sk(pk) * H(m) equals agg and every pk is
+   valid (non-identity, i.e. sk # 0).                                                                   *)
 EXTENDS Integers, Sequences, FiniteSets, TLC
 CONSTANTS Q, Msgs, NSigners
 Sk == 1..(Q-1)
@@ -12,20 +14,25 @@ AddV(a, b) == [m \in Msgs |-> (a[m] + b[m]) % Q]
 SigOf(sk, m) == [x \in Msgs |-> IF x = m THEN sk % Q ELSE 0]
 RECURSIVE Sum(_)
 Sum(pairs) == IF pairs = <<>> THEN Zero ELSE AddV(SigOf(Head(pairs)[1], Head(pairs)[2]), Sum(Tail(pairs)))
-VerifyAgg(pairs, agg) == (\A i \in 1..Len(pairs) : pairs[i][1] # 0) /\ Sum(pairs) = agg
+DistinctMsgs(pairs) == \A i, j \in 1..Len(pairs) : i # j => pairs[i][2] # pairs[j][2]
+VerifyAgg(pairs, agg) == DistinctMsgs(pairs) /\ (\A i \in 1..Len(pairs) : pairs[i][1] # 0) /\ Sum(pairs) = agg
 VARIABLES signers, presented, verdict
 Init == /\ signers \in [1..NSigners -> Sk \X Msgs] /\ presented = <<>> /\ verdict = "none"
 Perms == {p \in [1..NSigners -> 1..NSigners] : \A i, j \in 1..NSigners : i # j => p[i] # p[j]}
+\* presented = <<kind, (key, message) pairs, aggregate>>
 Present == /\ presented = <<>>
-           /\ \/ \E p \in Perms : presented' = <<"permuted", [i \in 1..NSigners |-> signers[p[i]]]>>
-              \/ \E i \in 1..NSigners : presented' = <<"duplicated", Append(signers, signers[i])>>
-              \/ \E i \in 1..NSigners : presented' = <<"missing", [j \in 1..(NSigners-1) |-> IF j < i THEN signers[j] ELSE signers[j+1]]>>
-              \/ \E i \in 1..NSigners, m \in Msgs : m # signers[i][2] /\ presented' = <<"other-msg", [signers EXCEPT ![i] = <<signers[i][1], m>>]>>
+           /\ \/ \E p \in Perms : presented' = <<"permuted", [i \in 1..NSigners |-> signers[p[i]]], Sum(signers)>>
+              \/ \E i \in 1..NSigners : presented' = <<"duplicated", Append(signers, signers[i]), Sum(signers)>>
+              \/ \E i \in 1..NSigners : presented' = <<"missing", [j \in 1..(NSigners-1) |-> IF j < i THEN signers[j] ELSE signers[j+1]], Sum(signers)>>
+              \/ \E i \in 1..NSigners, m \in Msgs : m # signers[i][2] /\ presented' = <<"other-msg", [signers EXCEPT ![i] = <<signers[i][1], m>>], Sum(signers)>>
+              \* rogue key: the attacker knows x, publishes the key x*G - pk_victim (discrete log x - sk_victim, unknown to it) and signs m with x
+              \/ \E i \in 1..NSigners, x \in Sk, m \in Msgs : (x - signers[i][1]) % Q # 0
+                    /\ presented' = <<"rogue-key", <<<<signers[i][1], m>>, <<(x - signers[i][1]) % Q, m>>>>, SigOf(x, m)>>
            /\ UNCHANGED <<signers, verdict>>
 Verify == /\ presented # <<>> /\ verdict = "none"
-          /\ verdict' = (IF VerifyAgg(presented[2], Sum(signers)) THEN "accept" ELSE "reject") /\ UNCHANGED <<signers, presented>>
+          /\ verdict' = (IF VerifyAgg(presented[2], presented[3]) THEN "accept" ELSE "reject") /\ UNCHANGED <<signers, presented>>
 Next == Present \/ Verify
 Spec == Init /\ [][Next]_<<signers, presented, verdict>>
-PermutationAccepted == (verdict # "none" /\ presented[1] = "permuted") => verdict = "accept"
+PermutationAccepted == (verdict # "none" /\ presented[1] = "permuted" /\ DistinctMsgs(signers)) => verdict = "accept"
 OthersRejected == (verdict # "none" /\ presented[1] # "permuted") => verdict = "reject"
 ====
